@@ -258,7 +258,90 @@ def run_C13(ctx):
     res["coverage"]["configuration_samples"] = cfgs[:3]
     return res
 
+# ------------------------------------------------------------------------------------------------
+# OS-level checks (h_os): C07 fault enumeration, C11 footprint, C18 purge scenarios
+# ------------------------------------------------------------------------------------------------
+def os_jobs(ctx, plan):
+    """plan: list of (variant, mode, flags, env)"""
+    jobs = []
+    for (variant, mode, flags, env) in plan:
+        b = ctx.build("h_os", variant)
+        args = ["--prop", ctx.pid, "--mode", mode, "--deadline", ctx.deadline or (240 if ctx.quick else 2400)] + list(flags)
+        tag = f"{variant}/os:{mode}" + ("/" + ",".join(f.lstrip('-') for f in flags) if flags else "") + ("/" + ",".join(f"{k.replace('MIMALLOC_','').lower()}={v}" for k, v in env.items()) if env else "/default")
+        jobs.append(dict(bin=b, args=args, env=env, tag=tag, timeout=(600 if ctx.quick else 3000)))
+    return jobs
+
+def os_property(ctx, plan, rule, assumptions, level, parallel=4):
+    tot, samples, viol, infra, per_run, dl = agg_runs(ctx, os_jobs(ctx, plan), parallel=parallel, sample_limit=8)
+    cov = dict(evaluations=tot["nodes"], distinct_nontrivial=tot["nontrivial"], rule=rule, samples=samples, exhaustive=not dl,
+               oracle_checks=tot["checks"], runs=per_run, configurations=len(plan))
+    if level == "model_checking":
+        cov.update(states=max(tot["nodes"], 1), transitions=max(tot["transitions"], 1), traces_validated_against_impl=tot["nodes"])
+    if dl: cov["deadline_hit"] = True
+    return dict(coverage=cov, assumptions=assumptions, violations=viol, infra=infra)
+
+LAZY = {"MIMALLOC_EAGER_COMMIT": "0", "MIMALLOC_ARENA_EAGER_COMMIT": "0"}
+def envs(*ds):
+    e = {}
+    for d in ds: e.update(d)
+    return e
+
+def run_C07(ctx):
+    q = ctx.quick
+    fl = [] if q else ["--pairs"]
+    P0 = {"MIMALLOC_PURGE_DELAY": "0"}; NOA = {"MIMALLOC_DISALLOW_ARENA_ALLOC": "1"}; SMALL = {"MIMALLOC_ARENA_RESERVE": "64MiB"}
+    plan = [("rel", "fault", fl, {}), ("rel", "fault", fl, envs(LAZY, P0)), ("rel", "fault", fl, NOA), ("rel", "fault", fl, envs(LAZY, P0, NOA)),
+            ("sec", "fault", fl, {}), ("sec", "fault", [], envs(LAZY, P0)), ("dbg", "fault", fl, {}), ("dbg", "fault", [], envs(LAZY, P0))]
+    if not q:
+        plan += [("rel", "fault", fl, envs(SMALL, P0, {"MIMALLOC_PURGE_DECOMMITS": "0"})), ("sec", "fault", [], NOA), ("dbg", "fault", [], NOA), ("rel", "fault", [], envs(LAZY, SMALL))]
+    return os_property(ctx, plan, level="fault_enumeration",
+        rule="for each of 8 workloads (small/medium churn, large, huge, over-aligned huge, threads with exit+reclaim, heaps new/delete/destroy, realloc chains, mixed) the fault-free run counts its N OS calls (mmap/munmap/mprotect/madvise through the shim); then every k < N is run with (a) a single refusal at call k and (b) persistent refusal from call k of mmap / mprotect / madvise / munmap / all kinds (thorough: also every pair k1<k2 of single refusals), under several option settings (default, lazy commit + immediate purge, arenas disabled, small arena) and builds. Oracle per case: no crash; every API result is NULL or a block that passes the full write/read/overlap oracle; live blocks keep their contents; only out-of-memory errors are reported; after the plan is lifted a recovery script allocates and frees blocks of all classes and after a forced collect nothing obtained directly from the OS remains mapped (minus ranges whose munmap the plan itself refused). distinct_nontrivial = cases in which at least one OS call was actually refused.",
+        assumptions=COMMON_ASSUME + ["refusals are ENOMEM (mmap: MAP_FAILED) / EINVAL (munmap); madvise never answers EAGAIN (mimalloc retries EAGAIN forever by design)",
+                                     "debug builds: madvise refusals are excluded (a failing decommit is an intended debug assertion)"])
+
+def run_C11(ctx):
+    q = ctx.quick
+    base = [{}, {"MIMALLOC_DISALLOW_ARENA_ALLOC": "1"}, {"MIMALLOC_ARENA_RESERVE": "64MiB"}, {"MIMALLOC_PURGE_DELAY": "0"}, {"MIMALLOC_PURGE_DELAY": "-1"},
+            {"MIMALLOC_PURGE_DECOMMITS": "0", "VF_RESET_ZERO": "1"}, LAZY, envs(LAZY, {"MIMALLOC_DISALLOW_ARENA_ALLOC": "1", "MIMALLOC_PURGE_DELAY": "0"})]
+    plan = [("rel", "footprint", [], e) for e in base] + [("sec", "footprint", [], {}), ("dbg", "footprint", [], {}), ("dbg", "footprint", [], {"MIMALLOC_DISALLOW_ARENA_ALLOC": "1"})]
+    if not q:
+        import itertools
+        for a, d, dc, lz in itertools.product([{}, {"MIMALLOC_DISALLOW_ARENA_ALLOC": "1"}, {"MIMALLOC_ARENA_RESERVE": "64MiB"}], ["10", "0", "-1"], ["1", "0"], [{}, LAZY]):
+            for v in ("rel", "dbg", "sec"):
+                plan.append((v, "footprint", [], envs(a, {"MIMALLOC_PURGE_DELAY": d, "MIMALLOC_PURGE_DECOMMITS": dc, "VF_RESET_ZERO": "1"}, lz)))
+    return os_property(ctx, plan, level="model_checking", parallel=4,
+        rule="9 allocate-everything/free-everything workloads (small, large, huge 17/40/100/33 MiB, over-aligned huge up to 128 MiB alignment, 8 and 40 sequential threads that exit with live blocks, heaps, realloc chains, mixed) x option configurations (arenas enabled / disabled / too small, purge delay 10/0/-1, decommit or reset, eager or lazy commit) x 4 repetitions; after each repetition + mi_collect(true) the shim's mapping table is inspected: (1) no mapping outside arena areas survives except segment-map parts and arena descriptors, (2) unless purge_delay=-1 no page inside an arena is resident (mincore), (3) total mapped bytes and resident bytes do not grow from repetition r to r+1.",
+        assumptions=COMMON_ASSUME + ["threads of the multi-threaded workloads run one after the other (deterministic schedule)", "bounded to 4 repetitions (the mapped-byte sequence is constant from repetition 1 on in every run, reported in the samples)"])
+
+def run_C18(ctx):
+    q = ctx.quick
+    import itertools
+    plan = []
+    for d, dc, m in itertools.product(["-1", "0", "5", "10"], ["1", "0"], ["1", "10"]):
+        e = {"MIMALLOC_PURGE_DELAY": d, "MIMALLOC_PURGE_DECOMMITS": dc, "MIMALLOC_ARENA_PURGE_MULT": m, "VF_RESET_ZERO": "1"}
+        plan.append(("rel", "purge", [], e))
+        if not q or (d, dc, m) in (("10", "1", "10"), ("0", "1", "1"), ("5", "0", "10"), ("-1", "1", "10")):
+            plan.append(("dbg", "purge", [], e)); plan.append(("sec", "purge", [], e))
+        if not q or m == "10":
+            plan.append(("rel", "purge", [], envs(e, {"MIMALLOC_DISALLOW_ARENA_ALLOC": "1"})))
+            plan.append(("rel", "purge", [], envs(e, {"MIMALLOC_ARENA_RESERVE": "64MiB"})))
+    return os_property(ctx, plan, level="model_checking", parallel=8,
+        rule="scenario enumeration with the virtual clock: {what becomes unused: a 1 MiB page inside a live segment, a whole (huge) segment, everything} x {later activity: free another page of the segment, allocate in the segment, alloc+free a 40 MiB block, mi_collect(false), small fast-path traffic (negative control)} x {purge_delay -1/0/5/10} x {decommit, reset} x {arena_purge_mult 1, 10} x {arenas on, off, small}. Oracle from the shim's call log: delay 0 -> the freed range is covered by madvise/munmap before the freeing call returns; delay d>0 -> no purge of the range before the clock passes d (d*mult for whole segments) whatever happens, and after it has passed the activities that reach a purge point (page: free of another page; segment: any arena free or non-forced collect) return the range without a forced collect; delay -1 -> no purge call at all, even under mi_collect(true).",
+        assumptions=COMMON_ASSUME + ["time is the shim's virtual clock", "allocating inside a segment re-arms its purge delay by design, so that activity is recorded as a control only"])
+
 PROPS = {
+    "C07": dict(level="fault_enumeration", run=run_C07, replay=replay_file, engine="os-shim",
+        technique="exhaustive fault enumeration: every position of the OS-call sequence of each workload fails once / persistently (thorough: all pairs) on the real allocator, with the reference-model oracle running throughout",
+        text="Every single-fault and persistent-fault plan over the whole OS call sequence of 8 workloads and several option settings is executed on the implementation in release, secure and debug builds; crash-freedom, NULL-or-valid results, intact live blocks and full recovery/quiescence are checked on each.",
+        note="trusted: OS shim fault model (refusals only, no partial success), harness oracle; workloads are fixed scripts"),
+    "C11": dict(level="model_checking", run=run_C11, replay=replay_file, engine="os-shim",
+        technique="exhaustive enumeration of workload x option-configuration x repetition scenarios on the real allocator with the OS mapping shadow (and mincore residency) as oracle",
+        text="All workload/configuration pairs are run for 4 repetitions; after each the complete set of mappings and resident pages is compared against the allowed set and against the previous repetition.",
+        note="trusted: OS shim mapping shadow; 'any number of repetitions' is covered up to 4 with a constant mapped-byte sequence"),
+    "C18": dict(level="model_checking", run=run_C18, replay=replay_file, engine="os-shim",
+        technique="exhaustive enumeration of purge scenarios (what becomes unused x later activity x option configuration) on the real allocator under a virtual clock, judged from the OS call log",
+        text="Every scenario of the product is executed; the call log decides whether the unused range was returned too early, in time by ordinary activity, or never.",
+        note="trusted: OS shim (virtual clock, call log); scenarios are a finite product, not all histories"),
     "C10": dict(level="model_checking", run=run_C10, replay=replay_file, engine="seq-explorer",
         technique="bounded exhaustive exploration of heap create/allocate/delete/destroy/set_default sequences on the real allocator against a heap-labelled reference model (concurrent part: schedule explorer)",
         text="Every sequence of the heap alphabet up to depth D from four start states, in release/debug/secure builds; at every node block ownership queries and heap walks must agree with the model and all live blocks must be intact.",
